@@ -20,6 +20,7 @@
 #ifndef DATASKETCHES_SERDE_HPP_
 #define DATASKETCHES_SERDE_HPP_
 
+#include <algorithm>
 #include <cstring>
 #include <iostream>
 #include <memory>
@@ -162,9 +163,12 @@ struct serde<std::string> {
         is.read((char*)&length, sizeof(length));
         if (!is.good()) { break; }
         std::string str;
-        str.reserve(length);
+        // the length comes from the input: do not trust it for the allocation, and stop at the end of the stream
+        str.reserve(std::min<uint32_t>(length, 1 << 16));
         for (uint32_t j = 0; j < length; j++) {
-          str.push_back(static_cast<char>(is.get()));
+          const auto c = is.get();
+          if (!is.good()) { break; }
+          str.push_back(static_cast<char>(c));
         }
         if (!is.good()) { break; }
         new (&items[i]) std::string(std::move(str));
